@@ -744,6 +744,11 @@ func (w *World) execFailStorable(st *Step) *Violation {
 	if err == nil {
 		return w.viol(class, "container #%d: %s with a value whose Storable() failed returned no error", c.CID, what)
 	}
+	if w.CheckNow != nil {
+		if v := w.CheckNow(w); v != nil {
+			return v
+		}
+	}
 	// unchanged: count now, content at the next deep comparison
 	var cnt uint64
 	if c.IsMap {
